@@ -430,7 +430,7 @@ impl Property for C07 {
     }
     fn rule(&self) -> &'static str {
         "sweep = (1) schema from the .proto text == schema from protoc's serialized descriptors embedded in the Python bindings, field by field; (2) both == the #[prost] attributes of ommx.v1.rs read textually (name, tag, type, label, oneof membership); (3) every enum x every number in [-1, max+2]: Rust name <-> number mapping equals the schema's; (4) data/random_lp_instance.ommx decodes, validates, decodes identically under the independent decoder with zero unknown fields and re-encodes; \
-         random = message type (all 31, chosen by the tape) x schema source {proto text, python descriptors} x random dynamic message (every field set/unset, nesting depth<=4, maps, each oneof arm and none, enum values incl. 0 and an undeclared number, extreme integers, UTF-8 strings, -0.0, subnormals, infinities) encoded by the independent encoder in a random legal layout (field order shuffled, packed/unpacked/split repeated scalars, map entry order and key/value order, omitted default key/value, explicit default scalars, unknown fields of all wire types incl. field number 2^29-1) -> Rust decode -> by-name projection == message -> Rust encode -> independent decode == message, no unknown fields, decode(encode(t)) == t; \
+         random = message type (all 31, chosen by the tape) x schema source {proto text, python descriptors} x random dynamic message (every field set/unset, nesting depth<=4, maps, each oneof arm and none, enum values incl. 0 and an undeclared number, extreme integers, UTF-8 strings, -0.0, subnormals, infinities) encoded by the independent encoder in a random legal layout (field order shuffled, packed/unpacked/split repeated scalars, map entry order and key/value order, omitted default key/value, explicit default scalars, unknown fields of all wire types incl. field number 2^29-1) -> Rust decode -> by-name projection == message -> Rust encode -> independent decode == message, no unknown fields, decode(encode(t)) == t; instances, parametric instances, states and sample sets additionally stored as a raw artifact layer (next to a foreign layer) and read back through the typed getters; \
          non-trivial = >=3 populated fields incl. a nested / map / oneof field, or a layout perturbation; distinct = sha256(bytes)"
     }
     fn required_labels(&self) -> Vec<String> {
